@@ -18,7 +18,7 @@ CHECKS = {
     "C02": dict(
         technique="TLC model check Impl=>Doc (MC_Resolve: DocImplAgree, Deterministic) + discrepancy census replayed on the real code + TLA+ Doc-layer trace judge (Trace_Resolve: winner/ambiguous/nomethod/resolve_agrees/no_body_on_error)",
         text="The documented priority-then-specificity rule is written once in TLA+ (Resolve.tla). TLC checks the implementation-shaped model against it over every class DAG / method set / call of the bound, and judges every outcome recorded from the real code (exhaustive small scope, curated shapes, seeded random worlds with ABCs, protocols, optional positionals, keyword-only parameters, priorities, re-registrations).",
-        note="Trusts: error-kind classification by raise site; Doc reading decisions (Rejected accepted for NoMethod only for unknown call shapes). Known finding KF-levels is matched by input signature AND Impl-layer prediction.",
+        note="Trusts: error-kind classification by raise site; Doc reading decisions (Rejected accepted for NoMethod only for unknown call shapes). (The level artefact that used to be a known finding here is repaired.)",
         ref="5 C02",
     ),
     "C07": dict(
@@ -119,14 +119,14 @@ CHECKS["C11"] = dict(
 CHECKS["C17"] = dict(
     technique="Doc overload set per class as a TLA+ operator (ClassOvld.tla EffMethods; MC_Class checks its invariants over every hierarchy of the bound) + trace judge Trace_Resolve C17Clause: every probe of every class after every class definition judged with the documented resolution rule over EffMethods",
     text="Class hierarchies (metaclass / OvldBase roots, plain mixin classes, one or two bases, 0-3 same-named definitions, extend_super or not, bodies with call_next and recurse on the bound method) are defined one class at a time on the real library; after every definition every class defined so far is probed with every argument class. TLC computes the documented overload set of each class from the hierarchy description and judges which bodies ran, that self is the instance, and that earlier classes keep their behaviour.",
-    note="Trusts: generator avoids the cases the statement leaves open (same annotation from two bases; no own definition under several bases). KF-latemark: marker on a later definition of the body.",
+    note="Trusts: generator avoids the cases the statement leaves open (same annotation from two bases; no own definition under several bases). The marker on a later definition of the body (formerly a known finding) is repaired and generated freely.",
     ref="5 C17")
 
 CHECKS["C09"] = dict(
     category="translation_validation",
     technique="event semantics of method bodies as a TLA+ operator (Recode.tla Eval + grammar WellFormed); three-way comparison by TLC (Trace_Recode) of Eval, the program run unregistered with recurse / call_next as ordinary callables, and the program registered on a real function",
     text="Every program of a grammar that places recurse / call_next / own-name calls (positional, starred, keyword, double-starred) in every expression context is rendered in five wrappers and executed twice; TLC computes the expected event sequence (leaf evaluations exactly once, left to right, dispatches with the values they carry), value and exception from the term and compares both recordings with it, checks that the placement was accepted and that traceback line numbers coincide with the unregistered run. A disagreement between Eval and the unregistered run is a machinery error, never a verdict.",
-    note="Trusts: the renderer. The transformation is one pure function, so the family of technique contributes the grammar and the semantics; the decisive comparison is differential. Three refusals of valid placements are known findings (double-starred call sites, call_next(*args), call site inside a comprehension iterable).",
+    note="Trusts: the renderer. The transformation is one pure function, so the family of technique contributes the grammar and the semantics; the decisive comparison is differential. The three refusals of valid placements that were known findings (double-starred call sites, call_next(*args), call site inside a comprehension iterable) are repaired.",
     ref="5 C09")
 
 NOT_APPLICABLE = {}
@@ -137,11 +137,11 @@ PENDING_REASON = "check not built yet in this round (planned, see DESIGN section
 ROUND2 = {
  "C01": " The value worlds (Dependent / Literal, unions with dependent members next to a second conditioned position, union-bounded dependents) are judged for the accepts.* clauses as well, in both call orders.",
  "C02": " Re-registrations are also written with renamed parameters. (Beyond the property: the output of display_resolution is judged against the same rule, X2 clauses, reported as EXTRA only.) Re-registrations also declare their keyword-only parameters in the other order (signature identity takes them as a set).",
- "C03": " The generated value dispatchers are covered too: the value worlds of C10 as functions and as same-named methods of an OvldBase class (self, arguments and delegated arguments intact, no bad forward); parameter names that the generated entry point also uses (type; OVLD / KWARGS / MISSING are a known finding). (Beyond the property: inspect.signature(f) is checked against the analyser model, X1 clauses, EXTRA only.)",
+ "C03": " The generated value dispatchers are covered too: the value worlds of C10 as functions and as same-named methods of an OvldBase class (self, arguments and delegated arguments intact, no bad forward); parameter names that the generated entry point also uses (type, OVLD, KWARGS, TARGS, MISSING - the collision that was a known finding is repaired). (Beyond the property: inspect.signature(f) is checked against the analyser model, X1 clauses, EXTRA only.)",
  "C04": " Also: histories on a function one position of which takes both type[...] and instances that compare and hash equal across classes, judged against the first call ever made in a new interpreter. The error object of a failing call must be the call's own (identity across the history).",
  "C05": " Also: random histories on the public MultiTypeMap with Dependent / union / class_check signatures, and changes made by a running method followed by recurse / own name / call_next, judged over the method set after the change. In-flight changes include the registration of the function's first type[...] method followed by a recursion that passes a class.",
  "C06": " The context sweep also runs over value worlds (Dependent / Literal, extras not applicable to the values) and over worlds whose arguments are types (keyword-only type[...] parameters made optional by an unrelated method).",
- "C07": " Also: chains through the value dispatchers of Dependent / Literal worlds (call_next with the arguments received and with other values), through type[...] worlds with call_next and f.next, factory-made methods sharing a code object delegating with f.next, and f.next from a method with self (known finding).",
+ "C07": " Also: chains through the value dispatchers of Dependent / Literal worlds (call_next with the arguments received and with other values), through type[...] worlds with call_next and f.next, factory-made methods sharing a code object delegating with f.next, and f.next from a method with self (formerly a known finding, repaired).",
  "C08": " Also: recurse(a, recurse(b, c)) compared with f(a, f(b, c)); mixed-type Literal signatures; a change made on the parent of a linked variant while a call on the variant is running, followed by recurse / call_next.",
  "C09": " The grammar also has sites passing the positional parameter by keyword, recurse / the own name used as a value, a multi-line literal in an indented definition and a local that shadows `type`. Round 2b: keyword-first call sites (arguments evaluate in the order written), nested defs / lambdas that shadow the rewritten names, a class statement inside the method, postponed annotations, an empty closure cell, own-name sites written in full under the self wrapper.",
  "C10": " Worlds also have dependents bounded by a union of classes (both spellings), a union with a dependent member next to a second conditioned position, and a value-dependent keyword-only parameter as the only parameter; known-finding attribution requires the Impl prediction of value dispatch. Round 2b: dependents bounded by value-dependent types (bound checked at value level), keyword parameters named like the generated dispatcher's own names, arguments_intact.",
